@@ -76,8 +76,15 @@ impl<'a, W: Write> DocumentPrinter<'a, W> {
     pub fn docs(&mut self, docs: &[DocComment]) -> std::fmt::Result {
         for doc in docs {
             for line in doc.comment.lines() {
+                // a blank line would be printed as an empty `///` comment, which the
+                // next print drops: skip it so that formatting is idempotent
+                let line = line.trim();
+                if line.is_empty() {
+                    continue;
+                }
+
                 self.indent()?;
-                write!(self.writer, "/// {line}", line = line.trim())?;
+                write!(self.writer, "/// {line}")?;
                 self.newline()?;
             }
         }
